@@ -1214,3 +1214,173 @@ if not getattr(torch.tensor, "_qv_patched", False):
     _tensor._qv_patched = True
     _PROXY.__dict__["_real"] = type("R", (), {"tensor": staticmethod(_real_tensor)})()
     torch.tensor = _tensor
+
+
+# ---------------------------------------------------------------------------- further primitives (equivalent spellings
+# a maintainer may use; each is expressed through the operations above)
+@H("reciprocal")
+def _reciprocal(a, out=None):
+    return _out(map1(lambda x: alg.inv(x), _obj(a)), out, "reciprocal")
+
+
+@H("reciprocal_")
+def _reciprocal_(self):
+    return _assign(self, map1(lambda x: alg.inv(x), self._arr), "reciprocal_")
+
+
+@H("rsqrt")
+def _rsqrt(a, out=None):
+    return _out(map1(lambda x: alg.inv(alg.sqrt(x)), _obj(a)), out, "rsqrt")
+
+
+@H("neg_")
+def _neg_(self):
+    return _assign(self, -self._arr, "neg_")
+
+
+@H("tanh")
+def _tanh(a, out=None):
+    def f(x):
+        e = alg.exp(2 * x)
+        return (e - 1) * alg.inv(e + 1)
+    return _out(map1(f, _obj(a)), out, "tanh")
+
+
+@H("sinh")
+def _sinh(a, out=None):
+    return _out(map1(lambda x: (alg.exp(x) - alg.exp(-x)) / 2, _obj(a)), out, "sinh")
+
+
+@H("cosh")
+def _cosh(a, out=None):
+    return _out(map1(lambda x: (alg.exp(x) + alg.exp(-x)) / 2, _obj(a)), out, "cosh")
+
+
+@H("logaddexp")
+def _logaddexp(a, b, out=None):
+    A_, B_ = np.broadcast_arrays(_obj(a), _obj(b))
+    r = np.empty(A_.shape, dtype=object)
+    for k in np.ndindex(*A_.shape):
+        r[k] = alg.log(alg.exp(A_[k]) + alg.exp(B_[k]))
+    return _out(r, out, "logaddexp")
+
+
+@H("addcmul")
+def _addcmul(a, t1, t2, *, value=1, out=None):
+    return _out(_obj(a) + to_P(value) * (_obj(t1) * _obj(t2)), out, "addcmul")
+
+
+@H("addcdiv")
+def _addcdiv(a, t1, t2, *, value=1, out=None):
+    return _out(_obj(a) + to_P(value) * (_obj(t1) / _obj(t2)), out, "addcdiv")
+
+
+@H("addmm")
+def _addmm(a, m1, m2, *, beta=1, alpha=1, out=None):
+    return _out(to_P(beta) * _obj(a) + to_P(alpha) * np.matmul(_obj(m1), _obj(m2)), out, "addmm")
+
+
+@H("addmv")
+def _addmv(a, m, v, *, beta=1, alpha=1, out=None):
+    return _out(to_P(beta) * _obj(a) + to_P(alpha) * np.matmul(_obj(m), _obj(v)), out, "addmv")
+
+
+@H("select")
+def _select(self, dim, index):
+    return _view(self, np.take(self._arr, index, axis=dim)) if False else _view(self, self._arr[(slice(None),) * (dim % self._arr.ndim) + (index,)])
+
+
+@H("narrow")
+def _narrow(self, dim, start, length):
+    return _view(self, self._arr[(slice(None),) * (dim % self._arr.ndim) + (slice(start, start + length),)])
+
+
+@H("index_select")
+def _index_select(self, dim, index):
+    return _new(np.take(self._arr, _idx(index), axis=dim))
+
+
+@H("flip")
+def _flip(a, dims):
+    return _new(np.flip(_obj(a), axis=tuple(dims) if isinstance(dims, (list, tuple)) else dims).copy())
+
+
+@H("chunk")
+def _chunk(a, chunks, dim=0):
+    A_ = a._arr
+    n = A_.shape[dim]
+    size = -(-n // chunks)
+    return tuple(_view(a, A_[(slice(None),) * (dim % A_.ndim) + (slice(s, min(s + size, n)),)]) for s in range(0, n, size))
+
+
+@H("split")
+def _split(a, split_size, dim=0):
+    A_ = a._arr
+    n = A_.shape[dim]
+    if isinstance(split_size, int):
+        bounds = [(s, min(s + split_size, n)) for s in range(0, n, split_size)]
+    else:
+        bounds, s = [], 0
+        for L in split_size:
+            bounds.append((s, s + L))
+            s += L
+    return tuple(_view(a, A_[(slice(None),) * (dim % A_.ndim) + (slice(lo, hi),)]) for lo, hi in bounds)
+
+
+@H("unbind")
+def _unbind(a, dim=0):
+    A_ = a._arr
+    return tuple(_view(a, A_[(slice(None),) * (dim % A_.ndim) + (i,)]) for i in range(A_.shape[dim]))
+
+
+@H("movedim", "moveaxis")
+def _movedim(a, src, dst):
+    return _view(a, np.moveaxis(a._arr, src, dst))
+
+
+@H("new_zeros")
+def _new_zeros(self, *size, **k):
+    if len(size) == 1 and isinstance(size[0], (tuple, list, torch.Size)):
+        size = tuple(size[0])
+    z = np.empty(tuple(int(s) for s in size), dtype=object)
+    z[...] = alg.ZERO
+    return _new(z)
+
+
+@H("new_ones")
+def _new_ones(self, *size, **k):
+    r = _new_zeros(self, *size)
+    r._arr[...] = alg.ONE
+    return r
+
+
+@H("full_like")
+def _full_like(x, fill_value, **k):
+    z = np.empty(tuple(x.shape), dtype=object)
+    z[...] = to_P(fill_value)
+    return _new(z)
+
+
+@H("tensordot")
+def _tensordot(a, b, dims=2):
+    return _new(np.tensordot(_obj(a), _obj(b), axes=dims))
+
+
+@H("outer")
+def _outer2(a, b, out=None):
+    return _ger(a, b, out)
+
+
+@H("exp_")
+def _exp_(self):
+    return _assign(self, _exp(self._arr), "exp_")
+
+
+@H("log_")
+def _log_(self):
+    return _assign(self, _log(self._arr), "log_")
+
+
+@H("square_")
+def _square_(self):
+    return _assign(self, self._arr * self._arr, "square_")
